@@ -4,6 +4,7 @@
 //!   (need the pinning bit spec: feature sets with `has_pinning`).
 //!   `group.rs`: races on a group of objects whose side-metadata fields share one byte (`fwd mrace`, `casbit mrace`).
 //! * `bpool` (C19): `bpool.rs`.
+//! * `satb` (C12, racing SATB barriers on a real ConcurrentImmix instance): `satb.rs`.
 #[cfg(feature = "has_pinning")]
 pub mod cell;
 #[cfg(feature = "has_pinning")]
@@ -11,12 +12,13 @@ pub mod group;
 #[cfg(feature = "has_pinning")]
 pub mod vms;
 pub mod bpool;
+pub mod satb;
 
 pub fn dispatch(tokens: &[&str]) -> Option<String> {
     let (c, args) = tokens.split_first()?;
     if args.is_empty() {
         return match *c {
-            "cell" | "fwd" | "casbit" | "bpool" => Some("bad-op".to_string()),
+            "cell" | "fwd" | "casbit" | "bpool" | "satb" => Some("bad-op".to_string()),
             _ => None,
         };
     }
@@ -28,6 +30,7 @@ pub fn dispatch(tokens: &[&str]) -> Option<String> {
         #[cfg(feature = "has_pinning")]
         "casbit" => cell::run_casbit(args),
         "bpool" => bpool::run(args),
+        "satb" => satb::run(args),
         _ => return None,
     })
 }
